@@ -250,6 +250,17 @@ def reshape_cases(payload):
       labels = np.arange(n) % 4
       oh = common_utils.onehot(jnp.asarray(labels), 4, on_value=2.0, off_value=-1.0)
       r['onehot'] = oh.shape == (n, 4) and all(float(oh[i, j]) == (2.0 if j == labels[i] else -1.0) for i in range(n) for j in range(4))
+      # any integer label dtype, any number of classes (also more classes than the label dtype can count), any label rank
+      K, dt = c.get('classes', 4), np.dtype(c.get('ldtype', 'int32'))
+      top = min(K - 1, int(np.iinfo(dt).max))
+      lab = np.asarray([(i * c.get('stride', 1) + c.get('off', 0)) % (top + 1) for i in range(n * 2)]).astype(dt).reshape(n, 2)
+      lab[-1, -1] = top
+      oh = np.asarray(common_utils.onehot(jnp.asarray(lab) if c.get('as_jax', True) else lab, K))
+      want = np.zeros((n, 2, K), dtype=np.float32)
+      for i in range(n):
+        for j in range(2):
+          want[i, j, int(lab[i, j])] = 1.0
+      r['onehot_any_dtype'] = oh.shape == want.shape and bool((oh == want).all())
       devs = [jax.devices()[0]] * d
       rep = jax_utils.replicate({'w': jnp.arange(3.0)}, devices=devs)
       r['replicate'] = rep['w'].shape == (d, 3) and bool((rep['w'] == jnp.arange(3.0)[None]).all())
